@@ -131,4 +131,36 @@ theorem final_qnames_unique (style : Str) (cs : List Cls) (hwf : ∀ c ∈ cs, w
   have h := Props.C07.class_keys_distinct_after_rename style cs hwf
   exact List.Pairwise.of_map _ (fun a b hab he => hab (by rw [he])) h
 
+/-! ## inner classes and the classes created for ambiguous choices (repairs c07d-01, c07d-02) -/
+
+open Xs.Rename Xs.Text Proofs.RenameClasses in
+/-- **the inner classes of one class get pairwise different slugs** (hence different class names
+under every naming case, `Props.C07.slug_invariant`): `VacuumInnerClasses.rename_duplicate_inners`
+gives every inner class whose slug is taken the next free index — for every list of inner names. -/
+theorem inner_class_slugs_distinct (names : List Str) : ((renameInners names []).map Xs.Text.alnum).Nodup :=
+  (renameInners_spec names []).1
+
+open Xs.Rename in
+example : renameInners ["x-1".toList, "x1".toList, "X_1".toList, "b".toList] [] =
+    ["x-1".toList, "x1_1".toList, "X_1_2".toList, "b".toList] := by decide +kernel
+
+open Xs.Rename Proofs.RenameClasses in
+/-- **the class created for an ambiguous choice lives in the target namespace of its source
+class** (it used to take the namespace of the *element*, which under the namespace styles put it
+into a module named like the output package): the namespace part of its qualified name is the one
+of the source, whatever the choice is called. -/
+theorem ref_class_in_source_namespace (src name q : Str) (hwf : wfQ src = true) (hn : name ≠ [])
+    (hplain : (splitQName src).1 = none → name.head? ≠ some '{')
+    (h : refClassQName src name false [] = some q) :
+    (splitQName q).1 = (splitQName src).1 ∧ (splitQName q).2 = name := by
+  simp only [refClassQName, Bool.false_eq_true, if_false, Option.some.injEq] at h
+  subst h
+  have := (splitQName_build src name hwf hn hplain).1
+  rw [this]
+  exact ⟨rfl, rfl⟩
+
+open Xs.Rename Proofs.RenameClasses in
+example : wfQ "{urn:x}t".toList = true ∧
+    refClassQName "{urn:x}t".toList "a".toList false [] = some "{urn:x}a".toList := by decide +kernel
+
 end Props.C07Layout
